@@ -1221,6 +1221,9 @@ def ctor_initial_state(cx, iid):
         ("half_connection::HalfConnection::new", "HalfConnection"): {"flush_alloc": "0", "sync_reply": "false"},
         ("RecvRateSet::reset", "RecvEntry"): {"value": "arg3", "timestamp_ms": "arg2", "is_initial": "false"},
         ("RecvRateSet::reset_initial", "RecvEntry"): {"value": "u32::max_value()", "timestamp_ms": "arg2", "is_initial": "true"},
+        # a logged frame records exactly what the emitter hands over: its size, send time, nonce and the whole list of
+        # resendable fragments it carries (a shortened list leaves acknowledged fragments marked unacknowledged)
+        ("FrameQueue::push", "frame_queue::Entry"): {"size": "cast<u32>(arg2)", "send_time_ms": "arg3", "fragment_refs": "arg4", "nonce": "arg5", "acked": "false"},
     }
     with cx.instance(iid, "T7 SHAPE (constructors)", "PacketSender / PacketReceiver / HalfConnection start with the window size they were given, empty windows at the negotiated ids, zero counters and zero flush credit; RecvRateSet::reset stores the rate it was given", floor=4) as inst:
         for (fn, adt), fields in want.items():
@@ -1232,6 +1235,12 @@ def ctor_initial_state(cx, iid):
             for k, v in fields.items():
                 if got.get(k) != v:
                     inst.violation(b.path, "%s.%s" % (adt, k), "%s initialises %s to `%s`, expected `%s`" % (fn.split("::")[-2] + "::" + fn.split("::")[-1], k, str(got.get(k))[:80], v), at=b.span_at(loc))
+        # the receiver enforces the allocation limit it was given (the one its side advertised), not a derived one
+        pr = R.body("PacketReceiver::new")
+        aw = [show(pr.call_expr(t)) for l, t in pr.calls("AssemblyWindow::new")]
+        inst.site(pr, None, "PacketReceiver::new -> %s" % aw)
+        if aw != ["AssemblyWindow::new(arg3)"]:
+            inst.violation(pr.path, "AssemblyWindow::new", "PacketReceiver::new creates its assembly window as %s, expected AssemblyWindow::new(max_alloc) with the limit it was given" % aw)
 
 
 def cull_always_drains(cx, iid):
@@ -1735,3 +1744,46 @@ def send_pending_covers_queues(cx, iid):
             inst.site(isp, loc, "is_send_pending -> false", {"under": sorted(alt)})
             if not alt_satisfies(alt, [r"eq\(0,PacketSender::pending_count\(arg1\.packet_sender\)\)", r"eq\(0,VecDeque::len\(arg1\.pending_queue\)\)", r"eq\(0,BinaryHeap::len\(arg1\.resend_queue\)\)"]):
                 inst.violation(isp.path, "is_send_pending false with data queued", "'nothing pending' is reported although one of send queue / pending queue / resend queue may be non-empty", at=isp.span_at(loc), detail={"facts": sorted(alt)})
+
+
+_SHARE_CACHE = {}
+
+
+def share_instance(cx, module, src_iid, new_iid):
+    """Re-uses one instance of another property's module as an instance of this property: the other module's run() is
+    evaluated once per process on a sub-context over the same facts (the fact analyses are shared), and the instance
+    src_iid is copied under new_iid.  Used where the rule is written inline in the other module."""
+    import importlib
+    from rules import Cx
+    key = (id(cx.R), module)
+    sub = _SHARE_CACHE.get(key)
+    if sub is None:
+        sub = Cx(module, cx.R, cx.D, tier=cx.tier, src=cx.src, meta=cx.meta)
+        sub._fa = cx._fa
+        importlib.import_module("props." + module).run(sub)
+        _SHARE_CACHE[key] = sub
+    for inst in sub.instances:
+        if inst.iid == src_iid:
+            import copy
+            c = copy.copy(inst)
+            c.iid = new_iid
+            c.violations = [dict(v, instance=new_iid, key="%s|%s|%s" % (new_iid, v.get("fn"), v.get("construct"))) for v in inst.violations]
+            cx.instances.append(c)
+            return c
+    with cx.instance(new_iid, "share", "shared instance %s of %s" % (src_iid, module), floor=0) as i2:
+        i2.violation("<anchor>", src_iid, "instance %s not produced by props.%s (anchor)" % (src_iid, module))
+
+
+def reorder_put_guarded(cx, iid):
+    """T1 GUARD: a newly acknowledged frame enters the loss detector's reorder buffer only if the buffer can still take it
+    (`can_put(frame_id)`: the frame is not behind the buffer's base).  A frame the detector has already judged lost and
+    whose acknowledgement arrives late must not be put again: it would occupy a reorder slot for the rest of the
+    connection and later holes would be declared lost early."""
+    R = cx.R
+    with cx.instance(iid, "T1 GUARD", "FeedbackGen::notify_ack calls ReorderBuffer::put only under ReorderBuffer::can_put(frame id)", floor=1) as inst:
+        b = R.body("FeedbackGen::notify_ack")
+        puts = call_sites(b, "ReorderBuffer::put")
+        if not puts:
+            inst.violation(b.path, "ReorderBuffer::put", "notify_ack no longer hands acknowledged frames to the reorder buffer (anchor)")
+        cx.guard(inst, b, puts, [[r"ReorderBuffer::can_put\(arg1\.reorder_buffer,arg2\)"]], construct="put without can_put",
+                 why="a frame behind the reorder buffer's base has already been judged: putting it again corrupts the loss history")
